@@ -123,10 +123,10 @@ What was added for the ones not caught (or caught without an input) at first:
 
 * C01: the text → token half of the layout independence is not a theorem; the `{{a}}` shorthand of
   object literals is outside the round trip.
-* C08: fuel adequacy of the parser model (the lexer's is proved).
 * C03: the passes of a loop as a computed function (now: relational).
-* C05 / C19: escapes, comments, "literal = covered bytes" for strings and text.
-* C11: trim / split validity; numeric conversions against a real-number specification.
+* C05: interleavings of text with code blocks and directives as one theorem.
+* C11: numeric conversions against a real-number specification.
+* the evaluator's fuel is a constant (10^5): theorems about whole renders carry a size bound.
 '''
 sec = tpl.replace('@@SIZES@@', sizes).replace('@@SEEDED@@', seeded)
 s = open(V + '/DESIGN.md').read()
